@@ -11,9 +11,10 @@ use spl_frontend::{
         Statement, TypeExpression, Variable, VariableDeclaration,
     },
     table::{Entry, GlobalEntry, GlobalTable, LookupTable},
+    tokens::Token,
     Shiftable, ToRange, ToTextRange,
 };
-use std::collections::HashMap;
+use std::{collections::HashMap, ops::Range};
 use tokio::sync::mpsc::Sender;
 
 pub async fn rename(
@@ -37,7 +38,7 @@ pub async fn rename(
                 let text_edits = idents
                     .into_iter()
                     .map(|identifier| {
-                        Ident::from_identifier(&identifier, identifier.to_text_range(&doc.tokens))
+                        Ident::from_identifier(&identifier, name_text_range(&identifier, &doc.tokens))
                     })
                     .map(|ident| TextEdit {
                         range: as_pos_range(&ident.to_range(), &doc.text),
@@ -86,7 +87,7 @@ pub async fn find(
                 let references = identifiers
                     .into_iter()
                     .map(|identifier| {
-                        Ident::from_identifier(&identifier, identifier.to_text_range(&doc.tokens))
+                        Ident::from_identifier(&identifier, name_text_range(&identifier, &doc.tokens))
                     })
                     .filter(|i| i != ident)
                     .map(|i| Location {
@@ -99,6 +100,15 @@ pub async fn find(
         }
     }
     Ok(None)
+}
+
+/// The text range of the token that holds the identifier itself.
+/// That is the last token in the range of the identifier (which might start with comments).
+fn name_text_range(identifier: &Identifier, tokens: &[Token]) -> Range<usize> {
+    match identifier.info.slice(tokens).last() {
+        Some(token) => token.range.clone(),
+        None => identifier.to_text_range(tokens),
+    }
 }
 
 fn find_referenced_identifiers(
